@@ -74,8 +74,8 @@ Definition frame_eqb (a b : frame) : bool :=
   | _, _ => false
   end.
 
-Definition corr_with (fa fs f0 : bool) (k : case) : bool :=
-  let c := mkCfg (k_var k) (k_pos k) (k_rec k) (k_since k) (k_since_ep k) (k_jl k) fa fs (k_batch k) f0 in
+Definition corr_with (fa fs f0 f1 f2 : bool) (k : case) : bool :=
+  let c := mkCfg (k_var k) (k_pos k) (k_rec k) (k_since k) (k_since_ep k) (k_jl k) fa fs (k_batch k) f0 f1 f2 in
   match hrun c init (k_sched k) with
   | Some s => list_eqb frame_eqb (log s) (o_log k) && list_eqb pub_eqb (g_log s) (o_glog k)
   | None => false
@@ -86,7 +86,8 @@ Definition corr_with (fa fs f0 : bool) (k : case) : bool :=
    the two C01 findings; flags are independent).  Which of the two applies is decided by
    the ORACLE below, not here: unpatched behaviour with a gap fails the oracle. *)
 Definition corr (k : case) : bool :=
-  existsb (fun f0 => corr_with false false f0 k || corr_with true false f0 k || corr_with false true f0 k || corr_with true true f0 k) [false; true].
+  existsb (fun fl => match fl with (((fa, fs), f0), (f1, f2)) => corr_with fa fs f0 f1 f2 k end)
+    (list_prod (list_prod (list_prod [false; true] [false; true]) [false; true]) (list_prod [false; true] [false; true])).
 
 (* The property, decided on what the implementation did. Only positioned subscriptions
    are subject to C01. *)
